@@ -121,8 +121,10 @@ class Container(typing.Generic[Symbol]):
                 Args:
                     feature: Features to be to extracted and registered.
                 """
-                for field in dsl.Column.dissect(*feature):
-                    self[field.origin].fields.add(field)
+                for element in dsl.Element.dissect(*feature):
+                    table = element.origin.instance  # columns are also used through a reference to their table
+                    if isinstance(table, dsl.Table):
+                        self[table].fields.add(dsl.Column(table, element.name))
 
             def filter(self, expression: 'dsl.Predicate') -> None:
                 """Extract predicate factors from given expression and register them into segments
@@ -501,7 +503,7 @@ class Visitor(
 
     @bypass(resolve_source)
     def visit_join(self, source: 'dsl.Join') -> None:
-        if source.condition:
+        if source.condition is not None:
             self.context.tables.filter(source.condition)
         super().visit_join(source)
         right = self.context.symbols.pop()
